@@ -5,7 +5,7 @@ from .codec import *
 from .proofcommon import run_proof_stage, proof_failure
 
 CODEC_ASSUMPTIONS = [
-    "target x86-64 little-endian, usize = 64 bits, rustc 1.95, debug profile",
+    "target x86-64 little-endian, usize = 64 bits, rustc 1.95; every case is run by two builds of the crate: the dev profile and the dev profile without debug assertions and overflow checks (opt-level 0 in both)",
     "type-name strings (core::any::type_name), the two 64-bit header hash words and buffer base addresses are inputs taken from the implementation run",
     "padding bytes of zero-copy structs are unspecified: theorems quantify over them, the comparison masks them",
     "length fields are never corrupted (outside the property)",
@@ -69,6 +69,14 @@ def run_codec_property(v, prop, ops, oracle, rule_extra="", known=None):
         return
     failing, corr_bad, known_hit = [], [], {}
     distinct = set()
+    # the same cases were run by two builds of the crate: the dev profile and one without debug
+    # assertions and overflow checks; the oracle and the correspondence are evaluated on both
+    views = [(c, "")]
+    if getattr(c, "iobs2", None):
+        import copy as _copy
+        c2 = _copy.copy(c)
+        c2.iobs = c.iobs2
+        views.append((c2, "[build without debug assertions and overflow checks] "))
     for x in c.cases:
         if getattr(x, "scaled_of", None) and prop != "C03":
             continue                     # scaled twins carry only the observations C03 needs
@@ -76,29 +84,36 @@ def run_codec_property(v, prop, ops, oracle, rule_extra="", known=None):
             continue                     # wrongly declared types: outside every other property
         if getattr(x, "pair_only", False) and prop not in ("C01", "C02", "C04", "C05", "C06", "C07"):
             continue                     # near-miss partners carry only ser / feed / cross / full / eps / schema
-        crash = c.iobs.get((x.cid, "crash"))
-        if crash:
-            # an abort of the harness (double free, failed huge allocation, ...) is blamed on the
-            # properties that depend on the operation that was running
-            durings = re.findall(r"during=([\w?]+)", crash) or ["?"]
-            during = next((d for d in durings if d == "?" or d in CRASH_OPS.get(prop, ())), None)
-            if during is not None:
-                r = "the process aborted during operation '%s' on this case: %s" % (during, crash)
+        for (cc, label) in views:
+            if label and tinfo(c, x).get("pow2") == "0":
+                # a unit that is not a power of two (known class D10) makes the outcome depend on the
+                # absolute base address, which differs between the two runs; the model was run with
+                # the addresses of the first
+                continue
+            crash = cc.iobs.get((x.cid, "crash"))
+            if crash:
+                # an abort of the harness (double free, failed huge allocation, ...) is blamed on the
+                # properties that depend on the operation that was running
+                durings = re.findall(r"during=([\w?]+)", crash) or ["?"]
+                during = next((d for d in durings if d == "?" or d in CRASH_OPS.get(prop, ())), None)
+                if during is not None:
+                    r = "the process aborted during operation '%s' on this case: %s" % (during, crash)
+                else:
+                    r = oracle(cc, x) if all((x.cid, op) in cc.iobs for op in ops if op in ("ser", "full", "eps:0")) else None
             else:
-                r = oracle(c, x) if all((x.cid, op) in c.iobs for op in ops if op in ("ser", "full", "eps:0")) else None
-        else:
-            r = oracle(c, x)
-        if isinstance(r, tuple) and r[0] == "known":
-            # r = ('known', finding id, what failed): suppressed only when the finding is listed
-            if known_listed(prop, r[1]):
-                known_hit.setdefault(r[1], []).append(x.cid)
-            else:
-                failing.append((x, r[2]))
-        elif r:
-            failing.append((x, r))
-        for op in ops:
-            if not agree(c, x, op):
-                corr_bad.append((x, op))
+                r = oracle(cc, x)
+            if isinstance(r, tuple) and r[0] == "known":
+                # r = ('known', finding id, what failed): suppressed only when the finding is listed
+                if known_listed(prop, r[1]):
+                    if not label:
+                        known_hit.setdefault(r[1], []).append(x.cid)
+                else:
+                    failing.append((x, label + r[2]))
+            elif r:
+                failing.append((x, label + r))
+            for op in ops:
+                if not agree(cc, x, op):
+                    corr_bad.append((x, op) if not label else (x, op, cc))
         if nontrivial(c, x):
             distinct.add((repr(x.t), repr(x.v)))
     hist = type_histogram(c)
@@ -114,7 +129,8 @@ def run_codec_property(v, prop, ops, oracle, rule_extra="", known=None):
         "stream_length_min_max": [min(lens or [0]), max(lens or [0])],
         "name_length_residues_mod16": sorted(set((len(c.hdrs[x.cid][2]) // 2) % 16 for x in c.cases if x.cid in c.hdrs)),
         "correspondence_observations": ops,
-        "traces_validated_against_impl": len(c.cases) - len(set(x.cid for x, _ in corr_bad)),
+        "traces_validated_against_impl": len(c.cases) - len(set(p[0].cid for p in corr_bad)),
+        "builds_compared": ["dev profile"] + (["dev profile without debug assertions and overflow checks"] if len(views) > 1 else []),
         "disagreements_checked": len(corr_bad),
         "campaign_wall_s": round(c.wall, 1),
         "samples": [describe(c, x) for x in c.cases[5:6] + c.cases[-1:]],
@@ -134,10 +150,11 @@ def run_codec_property(v, prop, ops, oracle, rule_extra="", known=None):
         return
     if corr_bad:
         corr_bad.sort(key=lambda p: case_weight(p[0]))
-        x, op = corr_bad[0]
+        x, op = corr_bad[0][0], corr_bad[0][1]
+        cv = corr_bad[0][2] if len(corr_bad[0]) > 2 else c
         d = describe(c, x)
-        d.update({"kind": "correspondence", "correspondence": "model vs implementation on observation '%s'" % op,
-                  "model": (c.mobs.get((x.cid, mkey(c, x, op))) or "")[:3000], "impl": (c.iobs.get((x.cid, op)) or "")[:3000],
+        d.update({"kind": "correspondence", "correspondence": "model vs implementation on observation '%s'%s" % (op, " (build without debug assertions and overflow checks)" if cv is not c else ""),
+                  "model": (c.mobs.get((x.cid, mkey(c, x, op))) or "")[:3000], "impl": (cv.iobs.get((x.cid, op)) or "")[:3000],
                   "disagreeing_observations": len(corr_bad),
                   "searched": "direct oracle of %s on all %d generated cases: no failing input" % (prop, len(c.cases)),
                   "seed": seed(), "tier": v.tier})
